@@ -113,7 +113,7 @@ func (s *scenario) retryCase() {
 	var a, b *scluster
 	s.p.mu.RLock()
 	for _, i := range g.Perm(len(aliasPool)) {
-		if c := s.p.hosts[aliasPool[i]]; c != nil && c.ready {
+		if c := s.p.hosts[aliasPool[i]]; c != nil && len(s.p.readyEndpointsLocked(c)) > 0 {
 			x, a = aliasPool[i], c
 			break
 		}
@@ -123,7 +123,7 @@ func (s *scenario) retryCase() {
 		return
 	}
 	for _, c := range s.liveClusters() {
-		if c != a && c.ready {
+		if c != a && s.p.usable(c) {
 			b = c
 		}
 	}
@@ -185,6 +185,10 @@ func (s *scenario) retryCase() {
 	}
 	wit := s.witness(map[string]interface{}{"request_resolved_to": a.name, "host_moved_to": b.name})
 	for _, rv := range reviews {
+		if rv.Cluster == a.name && !rv.EpReady {
+			r.Violation("C12/authz/review-sent-to-endpoint-that-is-not-ready/retry-after-host-moved", fmt.Sprintf("review received by server %s, not a ready endpoint of %q", rv.Endpoint, a.name), wit)
+			break
+		}
 		if rv.Cluster != a.name {
 			r.Violation("C12/authz/review-sent-to-other-cluster/retry-after-host-moved",
 				fmt.Sprintf("request to host %q resolved to cluster %q; its first review failed with a retriable error, the host moved to %q, and the retried review was sent to cluster %q", x, a.name, b.name, rv.Cluster), wit)
@@ -278,7 +282,7 @@ func (s *scenario) overlapCase(authn bool) {
 	byOwner := map[string][]string{}
 	var owners []string
 	for _, h := range s.hostPool {
-		if c := s.p.hosts[h]; c != nil && c.ready {
+		if c := s.p.hosts[h]; c != nil && len(s.p.readyEndpointsLocked(c)) > 0 {
 			if len(byOwner[c.name]) == 0 {
 				owners = append(owners, c.name)
 			}
